@@ -47,7 +47,7 @@ WRAPPERS = {"eq2gal": 1, "gal2eq": 2, "eq2ec": 3, "ec2eq": 4, "ec2gal": 5, "gal2
 
 # rules that keep their verdict however the code is laid out (decided by term equality, effect analysis or dominance over
 # resolved calls); every other rule of this check is a template rule (vcheck.core.Check.obt)
-SEMANTIC = ('R09.1', 'R09.3', 'R09.5::wrapper-term', 'R09.6', 'R09.8', 'R09.9::rotate::alternative-under-angle-guard')
+SEMANTIC = ('R09.1', 'R09.3', 'R09.5::wrapper-term', 'R09.6', 'R09.8', 'R09.9::rotate::alternative-under-angle-guard', 'R09.10')
 
 
 def _load_repo():
@@ -830,6 +830,183 @@ def _read_constants(ao, bo, ai, bi):
         return None
 
 
+def _guard_disjuncts(c):
+    """the guard c as a list of alternatives, each a list of relations (see _flat_conds); None for anything else"""
+    out = []
+    for a in (c.args if isinstance(c, sp.Or) else [c]):
+        rels = _flat_conds([a])
+        if not rels:
+            return None
+        out.append(rels)
+    return out
+
+
+def _position_alternatives(ao, bo, coords):
+    """(ao', bo', alternatives): every alternative of a Piecewise sub-term of the result whose guard speaks about the input coordinates alone and
+    pins one of them to isolated values in each of its disjuncts (see _pinning_equation: lat == 90, |lat| == 90, |lon - node| < 1e-12, ...) is
+    taken out of the terms.  alternatives = [(guard relations, lon', lat')]: the result with that alternative selected; (ao', bo') is the result
+    for every other position.  The guard may as well speak about a value computed from the coordinates (the output latitude): then it contains
+    both coordinates and is kept as written for _euler_alternatives to decide"""
+    cs = set(coords)
+    alts = []
+    for _ in range(12):
+        T = sp.Tuple(ao, bo)
+        hit = None
+        for pw in sp.preorder_traversal(T):
+            if not isinstance(pw, sp.Piecewise) or pw.args[-1][1] is not sp.true:
+                continue
+            before = []
+            for i, (v, c) in enumerate(pw.args[:-1]):
+                dj = _guard_disjuncts(c)
+                if dj and all(all(r_.free_symbols and r_.free_symbols <= cs for r_ in rels) and any(_pinning_equation(r_) is not None for r_ in rels)
+                              for rels in dj):
+                    hit = (pw, i, v, dj, list(before))
+                    break
+                before.append(c)
+            if hit:
+                break
+        if hit is None:
+            break
+        pw, i, v, dj, before = hit
+        rest = [a for j, a in enumerate(pw.args) if j != i]
+        gen = rest[0][0] if len(rest) == 1 else sp.Piecewise(*rest, evaluate=False)
+        alt = T.xreplace({pw: v})
+        for rels in dj:
+            alts.append(([sp.Not(b) for b in before] + list(rels), alt[0], alt[1]))
+        g = T.xreplace({pw: gen})
+        ao, bo = g[0], g[1]
+    return ao, bo, alts
+
+
+def _clip_as_minmax(e):
+    CL = sp.Function("CLIP")
+    return e.replace(lambda t: isinstance(t, CL) and len(t.args) == 3, lambda t: sp.Max(t.args[1], sp.Min(t.args[2], t.args[0])))
+
+
+def _euler_alternatives(chk, fi, ep, sel, alts, T, bo_general, coords):
+    """R09.10 alternative-under-position-guard: a result euler() returns only for positions that satisfy a guard pinning an input coordinate to
+    isolated values (a canonical longitude `at the pole', a shortcut at the node, ...) must be the same DIRECTION as the rotation of that
+    position for EVERY position the guard lets through: the poles of the source system are ordinary points of the target system, only at the
+    poles of the TARGET system is the longitude free.  The guard's solution set is computed, substituted into the returned terms and into
+    the rotation with the constants euler() uses, and the two unit vectors are compared as terms."""
+    ai, bi = coords
+    tag = "[%s,select=%d]" % (ep, sel)
+    if not alts:
+        chk.ob("R09.10", "euler::alternative-under-position-guard::%s" % tag, True, fi.where(),
+               "euler() returns no result that is selected by a guard pinning an input coordinate to isolated values")
+        return
+    d2r = sp.pi / 180
+    for k, (conds, ra_v, dec_v) in enumerate(alts):
+        key = "euler::alternative-under-position-guard::%s::%d" % (tag, k + 1)
+        gtxt = " and ".join(str(c) for c in (_flat_conds(conds) or conds))[:200]
+        what = "euler%s: the result returned when %s (lon' = %s, lat' = %s) is the direction the rotation gives for every position that satisfies this guard" % (
+            tag, gtxt, str(ra_v)[:80], str(dec_v)[:60])
+        if T is None:
+            chk.ob("R09.10", key, None, fi.where(), what + ": the rotation constants could not be read off the general result")
+            continue
+        # the guard confines the OUTPUT latitude (the latitude term this alternative returns, unchanged from the general result) to +-90: the
+        # position is a pole of the target system, where every longitude is the same direction
+        at_pole = False
+        if dec_v == bo_general:
+            Lv = sp.Dummy("L", real=True)
+            k_, core_ = dec_v.as_independent(ai, bi, as_Add=False)
+            for c in (_flat_conds(conds) or []):
+                g = _pinning_equation(c)
+                if g is None or not (k_.is_number and k_ != 0):
+                    continue
+                # the same latitude term, however its argument happens to be arranged
+                same = {A: Lv / k_ for A in g.atoms(type(core_)) if A == core_ or sp.expand(A) == sp.expand(core_)} if isinstance(core_, sp.Function) else {}
+                if not same:
+                    continue
+                g2 = sp.simplify(g.xreplace(same))
+                fam_ = _solution_families(g2, Lv) if g2.free_symbols == {Lv} else None
+                if fam_ and all(t in (sp.Integer(90), sp.Integer(-90)) for t in fam_):
+                    at_pole = True
+        if at_pole:
+            chk.ob("R09.10", key, True, fi.where(), what + " (the guard confines the output latitude to +-90: a pole of the target system, where the longitude is free)")
+            continue
+        subs, open_ = _pinned_angles(conds, (ai, bi))
+        if subs is None:
+            chk.ob("R09.10", key, None, fi.where(), what + ": the solution set of the guard could not be computed")
+            continue
+        a = ai * d2r - T["phi"]
+        b = bi * d2r
+        x1 = sp.cos(b) * sp.cos(a)
+        y1 = T["ctheta"] * sp.cos(b) * sp.sin(a) + T["stheta"] * sp.sin(b)
+        z1 = -T["stheta"] * sp.cos(b) * sp.sin(a) + T["ctheta"] * sp.sin(b)
+        L = dec_v * d2r
+        A = ra_v * d2r - T["psi"]
+        res = [sp.cos(L) * sp.cos(A) - x1, sp.cos(L) * sp.sin(A) - y1, sp.sin(L) - z1]
+        allok, bad = True, None
+        for s_ in subs:
+            fam = ", ".join("%s = %s" % (q, sp.simplify(t)) for q, t in sorted(s_.items(), key=lambda kv: str(kv[0]))).replace("_n", "n")
+            for r_ in res:
+                try:
+                    r1 = _clip_as_minmax(_unmod_turns(r_.subs(s_)))
+                except Exception:
+                    allok = False
+                    continue
+                proven = False
+                if not r1.free_symbols:
+                    try:
+                        val = abs(mp.mpf(str(sp.N(r1, 30))))
+                    except Exception:
+                        val = None
+                    if val is not None and val <= mp.mpf("1e-9"):
+                        proven = True
+                    elif val is not None:
+                        bad = "for %s (any value of the other coordinate) the returned direction differs from the rotation of that position by %s (unit-vector component)" % (fam, mp.nstr(val, 3))
+                else:
+                    for f in (lambda x: x, sp.expand_trig, sp.simplify):
+                        try:
+                            z = symx._with_timeout(lambda: f(r1), 5.0)
+                        except Exception:
+                            continue
+                        if z == 0:
+                            proven = True
+                            break
+                    if not proven:
+                        bad = _position_witness(conds, r1, s_, coords, fam)
+                if bad is not None:
+                    break
+                if not proven:
+                    allok = False
+            if bad is not None:
+                break
+        if bad is not None:
+            chk.ob("R09.10", key, False, fi.where(), what + ": " + bad + " -- a pole (or any other special point) of the source system is an ordinary point "
+                   "of the target system; the longitude is free only where the OUTPUT latitude is +-90")
+            continue
+        chk.ob("R09.10", key, True if allok else None, fi.where(),
+               what + ("" if allok else ": the returned terms could not be shown equal to the rotation on the guard's solution set, nor different from it"))
+
+
+def _position_witness(conds, residual, sub, coords, fam):
+    """a position of the guard's solution set at which the residual term is not zero (exact values that satisfy every relation of the guard, the
+    residual term evaluated there in 30-digit arithmetic): refutes the identity of two terms, it is not a run of the code.  -> text or None"""
+    rels = _flat_conds(conds) or []
+    ints = sorted({x for t in sub.values() for x in t.free_symbols if x.is_integer}, key=str)
+    ints += sorted({x for x in residual.free_symbols if x.is_integer and x not in ints}, key=str)
+    for base in ((37, 23), (211, -48), (122, 61)):
+        for nval in (0, 1, -1):
+            at = dict(zip(coords, [sp.Integer(v) for v in base]))
+            for q, t in sub.items():
+                at[q] = t.subs({n: nval for n in ints})
+            at = {q: sp.sympify(v).subs({p: w for p, w in at.items() if p != q}) for q, v in at.items()}
+            if any(v.free_symbols for v in at.values()):
+                continue
+            try:
+                if not all(sp.simplify(c.subs(at)) is sp.true for c in rels):
+                    continue
+                val = abs(mp.mpf(str(sp.N(residual.subs(at).subs({n: nval for n in ints}), 30))))
+            except Exception:
+                continue
+            if val > mp.mpf("1e-9"):
+                return "at lon=%s lat=%s, which satisfies the guard (%s), the returned direction differs from the rotation of that position by %s (unit-vector component)" % (
+                    at[coords[0]], at[coords[1]], fam, mp.nstr(val, 3))
+    return None
+
+
 def euler_core(chk, repo, fi):
     se = _Eval(repo)
     ai, bi = symx.symbols("ai", "bi")
@@ -851,8 +1028,12 @@ def euler_core(chk, repo, fi):
                 continue
             ao, bo = r
             terms[(ep, sel)] = (ao, bo)
+            # results returned only for positions that satisfy a guard pinning a coordinate to isolated values (a special case for a pole, for
+            # the node, ...) are set aside and compared with the rotation on the guard's solution set (R09.10); what remains is the general form
+            ao, bo, alts = _position_alternatives(ao, bo, (ai, bi))
             T = _read_constants(ao, bo, ai, bi)
             eff[(ep, sel)] = T
+            _euler_alternatives(chk, fi, ep, sel, alts, T, bo, (ai, bi))
             if T is None:
                 chk.ob("R09.2", tag + "::latitude-formula", False, fi.where(),
                        "the evaluated terms do not have the shape lat' = asin(-s cos b sin(a-phi) + c sin b), lon' = atan2(...) + psi with constant s, c, phi, psi: %s"
@@ -1903,12 +2084,64 @@ def shift(chk, repo):
     for nm, args, flags, want, target, key, what in confs + [("nowrap", {"lon_input": lon}, {"wrap": False}, lon, None, None, None)]:
         a2 = {("ra" if k == "lon_input" else k): v for k, v in args.items()}
         r1 = terms[nm] if nm in terms else se.run(fi, dict(args), dict(flags))
-        r2 = se.run(sr, a2, dict(flags))
+        try:
+            r2 = se.run(sr, a2, dict(flags))
+        except AnalysisError as e:
+            # e.g. a truth value that arrives where shiftlon computes with a number: decided by the argument binding below
+            same = None if same else same
+            diffs.append("%s: shiftra could not be evaluated (%s)" % (nm, str(e)[:100]))
+            continue
         eq = isinstance(r1, sp.Basic) and isinstance(r2, sp.Basic) and symx.equal(r1, r2)[0]
         if not eq:
             same = False
             diffs.append("%s: %s vs %s" % (nm, str(r2)[:80], str(r1)[:80]))
     chk.ob("R09.8", "shiftra::delegates", same, sr.where(), "shiftra(ra, shift, wrap) evaluates to the same term as shiftlon(ra, shift, wrap) in every configuration%s" % ("" if same else " (%s)" % "; ".join(diffs)))
+    _shiftra_binding(chk, repo, fi, sr)
+
+
+def _shiftra_binding(chk, repo, fi, sr):
+    """R09.8 shiftra::forwards-arguments: when shiftra hands its work to shiftlon, each of its own parameters (the longitude, `shift`, `wrap`)
+    must reach the parameter of shiftlon that has that meaning -- bound through shiftlon's actual signature, whether the arguments are passed by
+    position or by keyword.  A call that is positively resolved to shiftlon and binds shiftra's `wrap` to shiftlon's `shift` (or the other way
+    round) shifts by the truth value of wrap and wraps on the truth value of the shift."""
+    key = "shiftra::forwards-arguments"
+    what = "each parameter of shiftra reaches the shiftlon parameter of the same meaning"
+    calls = []
+    for x in walk_no_nested(sr.node):
+        if isinstance(x, ast.Call):
+            d = dotted_name(x.func)
+            if d and d.split(".")[0] not in sr.params and repo.resolve_name(sr.module, d) == fi.qualname:
+                calls.append(x)
+    if not calls:
+        # not a delegation: the term comparison (shiftra::delegates) is the verdict
+        chk.ob("R09.8", key, True, sr.where(), what + " (shiftra does not call shiftlon: decided by the term comparison)")
+        return
+    if len(sr.params) < 1 or len(fi.params) < 1:
+        chk.ob("R09.8", key, None, sr.where(), what + ": no longitude parameter")
+        return
+    # shiftlon parameter -> shiftra parameter with that meaning: the longitude is the first parameter of each, options go by name
+    meaning = {fi.params[0]: sr.params[0]}
+    for p in fi.params[1:]:
+        if p in sr.params[1:]:
+            meaning[p] = p
+    stored = {t.id for x in walk_no_nested(sr.node) for t in ast.walk(x) if isinstance(t, ast.Name) and isinstance(t.ctx, ast.Store)} \
+        if any(isinstance(x, (ast.Assign, ast.AugAssign, ast.AnnAssign, ast.For, ast.With, ast.NamedExpr)) for x in walk_no_nested(sr.node)) else set()
+    verdict, notes = True, []
+    for c in calls:
+        b = _bound_args(c, fi)
+        if b is None:
+            verdict = None
+            notes.append("line %d: arguments could not be bound" % c.lineno)
+            continue
+        for p, arg in b.items():
+            if not isinstance(arg, ast.Name) or arg.id not in sr.params or arg.id in stored:
+                continue                      # an expression / a re-assigned local: left to the term comparison
+            want = meaning.get(p)
+            if want is not None and arg.id != want and arg.id in meaning.values():
+                verdict = False
+                notes.append("line %d: `%s` passes shiftra's `%s` as shiftlon's `%s` (signature %s(%s)), which expects `%s`"
+                             % (c.lineno, norm(c)[:80], arg.id, p, fi.name, ", ".join(fi.params), want))
+    chk.ob("R09.8", key, verdict, "%s:%d" % (sr.where().rsplit(":", 1)[0], calls[0].lineno), what + ("" if verdict else ": " + "; ".join(notes)))
 
 
 def _nonempty_cond(env, t):
